@@ -349,3 +349,20 @@ Proof.
   - lia.
 Qed.
 End SwitchStatements.
+
+(* ---------- static_known_sound in the form of the property statement ---------- *)
+Theorem static_known_sound_expr L G pv pv' e ctx :
+  pv_agree G pv pv' -> asm_agree pv pv' -> covers L ctx -> expr_known L G e = true ->
+  eval code_ops pv e ctx = eval code_ops pv' e ctx.
+Proof. intros Hg Ha Hc Hk. exact (expr_known_indep L G pv pv' Hg false (fun _ => Ha) e ctx Hk eq_refl Hc). Qed.
+
+Theorem static_known_sound_states names ns K :
+  reserved_free names ->
+  (forall i, nth_error (k_sym K) i = Some true -> exists e, In (NConst i e) ns /\ const_known e = true) ->
+  forall st st' pos pos' cg cg', good ns st -> good ns st' ->
+  pv_agree (global_known true names (k_sym K)) (pvar names st pos cg) (pvar names st' pos' cg') /\
+  asm_agree (pvar names st pos cg) (pvar names st' pos' cg').
+Proof.
+  intros Hres HK st st' pos pos' cg cg' Hg Hg'.
+  exact (conj (good_agree names ns K HK st st' pos pos' cg cg' Hg Hg') (asm_agree_pvar names Hres st pos cg st' pos' cg')).
+Qed.
